@@ -2,7 +2,7 @@
 From Coq Require Import List NArith Bool Arith.
 Import ListNotations.
 From SV Require Import Utf8 Escape EscapeProofs ExpGrammar ExpGrammarProofs Rules LineParser Generate GenerateProofs
-                       Diff Det DiffProofs DetProofs DetExtra Regen.
+                       Diff Det DiffProofs DetProofs DetExtra Regen Template CramSpec GenBlock GenBlockProofs Markdown MdSpec Update.
 Local Open Scope N_scope.
 
 (* [expectation_line m line] is the text create/update write for one line of output; out_line content line: the line is
@@ -57,6 +57,51 @@ Proof.
   apply Forall_forall. intros e He. apply in_map_iff in He. destruct He as [r [<- _]]. split; reflexivity.
 Qed.
 
+(* the whole generated test, Cram format.  What `scrut create` writes for a command (first line and further lines), the
+   lines of its output and its exit code -- optional title line, `  $ ...`, `  > ...`, one expectation line per line of output,
+   `  [code]` unless the code is 0 -- is read back by the Cram parser as exactly ONE test with that title, the same command
+   lines, the written expectation lines (which by C09_generated_expectations_pass accept the output) and that exit code.
+   The premises name the two listed known findings of this property (an expectation line that starts with `$ `, a first
+   one that starts with `> `) and what the expectation grammar accepts (C09_line_round_trip gives it for the real grammar). *)
+Theorem C09_cram_test_reads_back : forall pe m title cmd conts lines code,
+  (match title with Some t => title_ok t = true /\ no_lf t = true | None => True end) ->
+  no_lf cmd = true -> forallb no_lf conts = true ->
+  Forall (fun l => content_ok (trim_newlines l)) lines -> code <= 2147483647 ->
+  Forall (fun l => starts_with P_DOLLAR (expectation_line m l) = false) lines ->
+  (match lines with l :: _ => starts_with P_GT (expectation_line m l) = false | [] => True end) ->
+  Forall (fun l => pe (expectation_line m l) = true) lines ->
+  parse_cram pe (render_cram (gen_cram_doc m title cmd conts lines code))
+  = LOk [mkPT (match title with Some t => t | None => [] end) (cmd :: conts) (map (expectation_line m) lines)
+              (if code =? 0 then None else Some code) (match title with Some _ => 2 | None => 1 end)].
+Proof. exact cram_doc_reads_back. Qed.
+(* the same in Markdown format: `# title` and a blank line, then a scrut block fenced by one backtick more than the longest run
+   of backticks that starts a line of its body (at least three) -- so that no line of the output can close the block,
+   whatever it contains.  The block reads back (C06) as ONE test: same command lines, the written expectation lines, the exit
+   code, no inline configuration.  Only one listed known finding is a premise here (a first expectation starting with `> `) *)
+Theorem C09_markdown_test_reads_back : forall pe front_ok cfg_ok m title cmd conts lines code,
+  (match title with Some t => no_nl t = true /\ t <> [] | None => True end) ->
+  no_nl cmd = true -> forallb no_nl conts = true ->
+  Forall (fun l => content_ok (trim_newlines l)) lines -> code <= 2147483647 ->
+  (match lines with l :: _ => starts_with P_GT (expectation_line m l) = false | [] => True end) ->
+  Forall (fun l => pe (expectation_line m l) = true) lines ->
+  exists ttl ln,
+    parse_md pe front_ok cfg_ok (render_md (gen_md_doc m title cmd conts lines code))
+    = LOk [mkMT (mkPT ttl (cmd :: conts) (map (expectation_line m) lines) (if code =? 0 then None else Some code) ln) None].
+Proof. exact md_doc_reads_back. Qed.
+Example C09_markdown_test_instance :     (* output: a line of four backticks, then `x`; exit code 0: the fence gets five *)
+  render_md (gen_md_doc Unicode (Some [84]) [97] [] [[96;96;96;96;10]; [120;10]] 0)
+  = [[35;32;84]; []; [96;96;96;96;96] ++ SCRUT; [36;32;97]; [96;96;96;96]; [120]; [96;96;96;96;96]]
+  /\ parse_md (fun _ => true) (fun _ => true) (fun _ => true) (render_md (gen_md_doc Unicode (Some [84]) [97] [] [[96;96;96;96;10]; [120;10]] 0))
+     = LOk [mkMT (mkPT [84] [[97]] [[96;96;96;96]; [120]] None 4) None].
+Proof. split; vm_compute; reflexivity. Qed.
+
+Example C09_cram_test_instance :     (* title T, command `a` continued by `b`, output "x (glob)\n" "\t" (no final newline), exit code 3 *)
+  render_cram (gen_cram_doc Unicode (Some [84]) [97] [[98]] [[120; 32; 40; 103; 108; 111; 98; 41; 10]; [9]] 3)
+  = [[84]; [32;32;36;32;97]; [32;32;62;32;98]; [32;32;120;32;40;103;108;111;98;41] ++ S_EQUAL; [32;32;92;116] ++ S_ESCAPED; [32;32;91;51;93]]
+  /\ parse_cram (fun _ => true) (render_cram (gen_cram_doc Unicode (Some [84]) [97] [[98]] [[120; 32; 40; 103; 108; 111; 98; 41; 10]; [9]] 3))
+     = LOk [mkPT [84] [[97]; [98]] [[120;32;40;103;108;111;98;41] ++ S_EQUAL; [92;116] ++ S_ESCAPED] (Some 3) 2].
+Proof. split; vm_compute; reflexivity. Qed.
+
 (* the determinism premise is needed -- the listed known finding: a kept optional-multiline expectation followed by an
    overlapping one.  lines 1 2; expectations  1(optional multiline), 9, any-single-line *)
 Example C09_regen_greedy_refuted :
@@ -86,3 +131,5 @@ Print Assumptions C09_line_not_exit_code.
 Print Assumptions C09_regen_described.
 Print Assumptions C09_regen_accepts_when_deterministic.
 Print Assumptions C09_generated_expectations_pass.
+Print Assumptions C09_cram_test_reads_back.
+Print Assumptions C09_markdown_test_reads_back.
